@@ -217,7 +217,39 @@ fn regular_chain(img: &Image, start: u32) -> Vec<u32> {
 /// description, or None if the image offers no place for the chosen recipe.
 pub fn compound(rng: &mut Rng, bytes: &mut [u8], img: &Image) -> Option<String> {
     let regular: Vec<&refparse::RawEntry> = img.entries.iter().filter(|e| e.obj_type == 2 && e.size >= 4096 && (e.start as usize) < img.nsect).collect();
-    match rng.below(6) {
+    match rng.below(8) {
+        6 | 7 => {
+            // a stream entry names a chain the format keeps for itself (MiniFAT, directory,
+            // mini stream container, a FAT sector, a DIFAT sector) as its data, with a length
+            // to match: open looks at no stream's chain, so the file is accepted, and resizing,
+            // removing or overwriting the stream then works on the library's own structures
+            let streams: Vec<&refparse::RawEntry> = img.entries.iter().filter(|e| e.obj_type == 2).collect();
+            if streams.is_empty() {
+                return None;
+            }
+            let e = *rng.pick(&streams);
+            let (what, chain): (&str, Vec<u32>) = match rng.below(5) {
+                0 => ("MiniFAT chain", img.minifat_chain.clone()),
+                1 => ("directory chain", img.dir_chain.clone()),
+                2 => ("mini stream container", img.ministream_chain.clone()),
+                3 => ("FAT sector", img.fat_sectors.last().map(|s| vec![*s]).unwrap_or_default()),
+                _ => ("DIFAT sector", img.difat_sectors.first().map(|s| vec![*s]).unwrap_or_default()),
+            };
+            if chain.is_empty() {
+                return None;
+            }
+            let from = if rng.chance(2, 3) { 0 } else { rng.usize_below(chain.len()) };
+            let held = ((chain.len() - from) * img.sector_len) as u64;
+            let len = match rng.below(4) {
+                0 => held,
+                1 => held.saturating_sub(rng.below(img.sector_len as u64)).max(4096),
+                2 => held + img.sector_len as u64,
+                _ => held.max(4096),
+            };
+            wr32(bytes, e.off + 116, chain[from]);
+            wr64(bytes, e.off + 120, len);
+            Some(format!("compound: stream entry {} starts at sector {} of the {what} (position {from} of {}), size {} -> {len}", e.idx, chain[from], chain.len(), e.size))
+        }
         5 => {
             // a live entry's free link points at an unallocated slot that still carries links
             // and a name (a "deleted" entry that was never cleaned)
